@@ -599,7 +599,8 @@ def r07_10(ctx, g):
                         txt = norm(ds[0].value) if len(ds) == 1 else txt
                     ov_w.append(txt)
                     ok_w = ok_w and txt == want
-    ok_w = ok_w and len(ov_w) >= 2
+    if len(ov_w) < 2 or not ov_read:
+        raise AnalysisError("R07.10", wf.where(), f"cannot find where link overlaps are read ({len(ov_read)}) and written ({len(ov_w)} L-line builders in per-neighbour loops)")
     ctx.check(ok_r and ok_w, "R07.10", wf.where(), "link overlaps round-trip: read as the integer before the trailing letter, written as str(overlap) + 'M' of the stored adjacency entry", key_of(wf, f"overlap:{[norm(s.value) for s in ov_read]}:{sorted(set(ov_w))}"))
     # record letters: the reader dispatches on 'S' and 'L' only
     tests = sorted({const_value(c.args[0]) for c in walk_own(rg.node) if isinstance(c, ast.Call) and isinstance(c.func, ast.Attribute) and c.func.attr == "startswith" and c.args})
